@@ -79,6 +79,12 @@ CHECKS = {
         note="cuts are only placed where later co-aligned operands stay on one side; from_delayed is called with verify_meta=False",
         ref="§3 C17",
     ),
+    "C18": dict(
+        technique="round-trip + differential property-based testing over generated parquet datasets (pushdown vs in-memory selection by pandas), both readers",
+        text="Generated small datasets are written with to_parquet and read back by both readers; ~45 queries per dataset (projections, filter trees, user filters, partition subsets, len, head, index, fused reads) must equal the same selection done in memory, the round trip must return what was written, reported divisions must be truthful, and overwriting a dataset in use must be refused. Bounded exploration; known finding D50 (root cause in the pinned dask).",
+        note="per-case temporary directory under /verif/.work; categorical columns are not combined with row-less files (pandas 3 concat quirk); user filters with != on nullable columns are not generated (reader-specific null semantics)",
+        ref="§3 C18",
+    ),
     "C19": dict(
         technique="property-based testing of termination (pass-count bound), determinism and idempotence (metamorphic re-optimization) over generated programs",
         text="The fixed-point loops are driven pass by pass with a bound linear in plan size; plans must be identical across repetitions and rebuilds; re-optimized and further-built-on optimized collections must compute the unoptimized result. Bounded exploration; liveness decided as bounded work.",
